@@ -730,30 +730,37 @@ func (ci *cindex) lightFill(ctx context.Context, cks chunk.Chunks, sc sortedChun
 			continue
 		}
 
+		// records are not ordered by time inside a chunk: the hull must cover every record, not only the
+		// first and the last one (TRUNCATE BEFORE and the time-range selection of chunks rely on it)
+		cnt := chk.Count()
 		ts1, err := getRecordTimestamp(ctx, it)
 		if err != nil {
 			it.Close()
 			ci.logger.Warn("lightFill(): Could not read first record, err=", err)
 			continue
 		}
-
-		it.SetPos(int64(chk.Count()) - 1)
-		ts2, err := getRecordTimestamp(ctx, it)
+		minTs, maxTs := ts1, ts1
+		for i := uint32(1); i < cnt && err == nil; i++ {
+			it.Next(ctx)
+			var ts int64
+			if ts, err = getRecordTimestamp(ctx, it); err == nil {
+				if ts < minTs {
+					minTs = ts
+				}
+				if ts > maxTs {
+					maxTs = ts
+				}
+			}
+		}
+		it.Close()
 		if err != nil {
-			it.Close()
-			ci.logger.Warn("lightFill(): Could not read last record, err=", err)
+			ci.logger.Warn("lightFill(): Could not read all records of chunk ", chk.Id(), ", err=", err)
 			continue
 		}
 
-		c.Recs = chk.Count()
-		c.MinTs = ts1
-		c.MaxTs = ts2
-		if ts2 < ts1 {
-			ci.logger.Warn("lightFill(): first record of chunk ", chk.Id(), " has greater timestamp, than its last one")
-			c.MinTs = ts2
-			c.MaxTs = ts1
-		}
-		it.Close()
+		c.Recs = cnt
+		c.MinTs = minTs
+		c.MaxTs = maxTs
 	}
 }
 
